@@ -29,7 +29,8 @@ func vrfBootstrapServer() *vrfServerWorld {
 	return w
 }
 
-// request variant: 0 well-formed, 1 zero peer id, 2 non-empty start key, 3 peer on another store
+// request variant: 0 well-formed, 1 zero peer id, 2 non-empty start key, 3 peer on another store,
+// 4 a second peer (on another store) besides the well-formed one
 func vrfBootstrapReq(storeID, regionID uint64, variant int) *pdpb.BootstrapRequest {
 	peerID := v.Uint64("peerID")
 	v.Assume(peerID != 0)
@@ -45,6 +46,8 @@ func vrfBootstrapReq(storeID, regionID uint64, variant int) *pdpb.BootstrapReque
 		req.Region.StartKey = []byte("a")
 	case 3:
 		req.Region.Peers[0].StoreId = storeID + 5
+	case 4:
+		req.Region.Peers = append(req.Region.Peers, &metapb.Peer{Id: peerID + 1, StoreId: storeID + 5})
 	}
 	return req
 }
@@ -56,7 +59,7 @@ func vrfBootstrapReq(storeID, regionID uint64, variant int) *pdpb.BootstrapReque
 func VerifC20Bootstrap() {
 	w := vrfBootstrapServer()
 	s := w.s
-	va, vb := v.Choice("variantA", 4), v.Choice("variantB", 4)
+	va, vb := v.Choice("variantA", 5), v.Choice("variantB", 5)
 	sameIDs := v.Choice("sameIDs", 2) == 1
 	ra := vrfBootstrapReq(1, 10, va)
 	rb := vrfBootstrapReq(2, 20, vb)
